@@ -1052,6 +1052,7 @@ package process
 //@ contract (*PrintForm).Transition
 //@   callsite[C04] C04.printInternal process.TransitionInternally#1: arg0 == process
 //@ contract (*PrintForm).Transition$1
+//@   callsite[C04] C04.printLabel (*process.Label).String#1: arg0 == addr(f, PrintForm, label)
 //@   callsite[C04] C04.printLine fmt.Printf#1: arg0 == "> %s\n"
 //@   callsite[C04] C04.printStep (*process.Process).transitionLoop#1: arg0 == process && process.Body == f.continuation_e && process.Providers == old(process.Providers)
 //@ contract (*DropForm).Transition
@@ -1234,6 +1235,7 @@ package process
 //@ contract (*PrintForm).TransitionNP
 //@   callsite[C04] C04.npprintInternal process.TransitionInternallyNP#1: arg0 == process
 //@ contract (*PrintForm).TransitionNP$1
+//@   callsite[C04] C04.npprintLabel (*process.Label).String#1: arg0 == addr(f, PrintForm, label)
 //@   callsite[C04] C04.npprintLine fmt.Printf#1: arg0 == "> %s\n"
 //@   callsite[C04] C04.npprintStep (*process.Process).transitionLoopNP#1: arg0 == process && process.Body == f.continuation_e && process.Providers == old(process.Providers)
 //@ contract (*DropForm).TransitionNP
